@@ -93,6 +93,12 @@ pub struct SeqCfg {
     pub boundary_args: bool,
     /// only keys the model says are readable are ever read (all-hit workloads)
     pub hit_only: bool,
+    /// per-key weight cap of the no-pressure flavour (the sum of the caps, plus TTL entries, fits the cache)
+    pub cap: i64,
+    /// do not judge charged weights (C03 looks at the *consequences* of wrong accounting: loss without pressure)
+    pub lenient_weights: bool,
+    /// keep the cache filled to its demanded maximum: every put carries the cap weight, upserts only add / change / remove a TTL
+    pub saturate: bool,
 }
 
 #[derive(Clone, Debug)]
@@ -433,7 +439,7 @@ impl<'a> Run<'a> {
                         None => { self.fail(&["C05"], "C05/held-key-not-charged".into(), format!("key {} (id {}) is stored but no weight is charged for it ({})", key, id, context)); return; }
                         Some((charged_key, weight)) => {
                             if *charged_key != key { self.fail(&["C05"], "C05/charged-under-other-key".into(), format!("id {} is charged for key {} but stored for key {}", id, charged_key, key)); return; }
-                            if *weight != entry.weight {
+                            if *weight != entry.weight && !self.cfg.lenient_weights {
                                 self.fail(&["C08", "C05"], format!("C08/charged-weight-differs/{}/{}", last_shape(self.history.last().unwrap_or(&J::Null)), self.last_state.name()),
                                           format!("key {} is charged {} but the model expects {} ({})", key, weight, entry.weight, context));
                                 return;
@@ -500,7 +506,7 @@ impl<'a> Run<'a> {
                 self.fail(&["C05"], "C05/api-total-differs-from-snapshot".into(), "total_weight_used() disagrees with the snapshot".into());
                 return;
             }
-            if snapshot.weight_used != self.model_total() {
+            if snapshot.weight_used != self.model_total() && !self.cfg.lenient_weights {
                 self.fail(&["C05", "C08"], "C05/total-differs-from-model".into(), format!("total weight used {} but the model holds {} ({})", snapshot.weight_used, self.model_total(), context));
                 return;
             }
@@ -900,19 +906,21 @@ impl<'a> Run<'a> {
         }
         // no pressure: per-key cap so that the sum of the maxima always fits
         let cap = self.key_cap(key);
+        if self.cfg.saturate { return cap; }
+        if self.cfg.lenient_weights && self.rng.chance(1, 2) { return cap; }
         let roll = self.rng.below(8);
         match roll { 0 => 1, 1 => cap, 2 => 24.min(cap), 3 => 25.min(cap), _ => self.rng.range(1, cap as u64) as i64 }
     }
 
     /// Largest weight a key may ever demand in the no-pressure flavour (sum over keys + TTL entries fits the cache).
-    fn key_cap(&self, _key: u64) -> i64 { ((self.cfg.sut.max_weight / (self.cfg.n_keys as i64 + 1)) - TTL_ENTRY - 1).max(30) }
+    fn key_cap(&self, _key: u64) -> i64 { self.cfg.cap }
 
     fn gen_upsert(&mut self, key: u64) -> Option<WriteOp> {
         let state = self.state(key);
         let readable = matches!(state, KeyState::Live | KeyState::LiveTtl);
         if state == KeyState::ExpiredUnswept && !self.cfg.allow.upsert_on_expired { return None; }
         for _ in 0..8 {
-            let mask = self.rng.range(1, 15);
+            let mask = if self.cfg.saturate && readable { *self.rng.pick(&[4u64, 8, 8, 4]) } else if self.cfg.saturate { 3 } else { self.rng.range(1, 15) };
             let with_value = mask & 1 != 0;
             let with_weight = mask & 2 != 0;
             let with_ttl = mask & 4 != 0;
@@ -951,7 +959,7 @@ impl<'a> Run<'a> {
         let state = self.state(key);
         if state == KeyState::ExpiredUnswept && !self.cfg.allow.put_on_expired { return None; }
         let value = self.fresh_token(key);
-        let variant = self.rng.below(4);
+        let variant = if self.cfg.saturate { 1 + 2 * self.rng.below(2) } else { self.rng.below(4) };
         let ttl = self.gen_ttl();
         if !self.cfg.allow.ttl_overflow && ttl > Duration::from_secs(1 << 40) { return None; }
         let weight = self.gen_weight(key);
@@ -959,7 +967,8 @@ impl<'a> Run<'a> {
             0 => WriteOp::Put { key, value },
             1 => WriteOp::PutW { key, value, weight },
             2 => WriteOp::PutTtl { key, value, ttl },
-            _ => WriteOp::PutWTtl { key, value, weight, ttl },
+            // in a saturated history a key with a TTL sits at its demanded maximum: cap + the TTL entry
+            _ => WriteOp::PutWTtl { key, value, weight: if self.cfg.saturate { weight + TTL_ENTRY } else { weight }, ttl },
         })
     }
 
@@ -1153,9 +1162,13 @@ pub fn run_history(cfg: &SeqCfg) -> SeqOut {
         noise_handles.push(thread::spawn(move || noise_thread(cache, stop, seed, n_keys, lane)));
     }
     let mut steps_done = 0;
-    for _ in 0..cfg.steps {
+    for n in 0..cfg.steps {
         if run.stop { break; }
-        let step = run.gen_step();
+        let step = if cfg.saturate && (n as u64) < cfg.n_keys {
+            let key = n as u64 + 1;
+            let value = run.fresh_token(key);
+            Step::Write(WriteOp::PutWTtl { key, value, weight: cfg.cap + TTL_ENTRY, ttl: Duration::from_secs(3600) })
+        } else { run.gen_step() };
         run.exec_step(&step);
         run.after_step("after step");
         steps_done += 1;
